@@ -232,7 +232,7 @@ class FlagEngine:
                         s3 = CLEAR if st == CLEAR else s2
                     k = (n.id, succ.id, lab)
                     c = used.get(k, 0)
-                    if c >= 1:
+                    if c >= 2:          # twice: a loop body is entered, left through its back edge and re-tested
                         continue
                     sig = (succ.id, s3, t2, len(pr2))
                     used[k] = c + 1
